@@ -8,6 +8,8 @@ for p in sorted(glob.glob(os.path.join(HERE, "..", "lean", "Driver", "OpsC*.lean
     s = open(p).read()
     if f"namespace Fc.Drv.{cxx}" in s:
         continue
+    if "filled in by the" in s and s.count("=>") <= 1:
+        continue   # untouched stub of a work package that is not merged yet
     if "namespace Fc.Drv\n" not in s or "end Fc.Drv" not in s:
         print("skip (unexpected layout):", p); continue
     s = s.replace("namespace Fc.Drv\n", f"namespace Fc.Drv.{cxx}\n", 1)
